@@ -197,6 +197,10 @@ class Gen(object):
                 self.expect(C.render(C.m_get(v.obj, k)), "state", v.name)
 
     def idx(self, i, via_var):
+        if via_var == "big":                      # the index is a bigint variable
+            name = self.uid("ix")
+            self.emit("%s = %sB%d" % (name, "-" if i < 0 else "", abs(i)))
+            return name
         if i < 0 or via_var:
             name = self.uid("ix")
             self.emit("%s = %d" % (name, i))
@@ -1320,6 +1324,18 @@ def catalogue():
                             g.l_remove(pair(g, e, sz)[1], i, via, bind=True)))
                         add("nested_fetch", sit, e, lambda g: (lambda r: r and g.l_push(r, 8))(
                             g.n_fetch(pair(g, e, sz)[1], i, via)))
+            # bigint index variables: in range, and values whose low 64 bits would be in range
+            if e in ("int", "str"):
+                for label, i in (("0", 0), ("len-1", sz - 1), ("len", sz), ("2^64", 2 ** 64), ("2^64+len-1", 2 ** 64 + max(sz - 1, 0)),
+                                 ("2^65+1", 2 ** 65 + 1), ("-(2^64-1)", -(2 ** 64 - 1)), ("-2^64", -(2 ** 64)),
+                                 ("2^127-1", 2 ** 127 - 1)):
+                    if i == -1 and sz == 0:
+                        continue
+                    sit = "%s:i=%s:bigvar" % (sname, label)
+                    add("index", sit, e, lambda g: g.l_read(pair(g, e, sz)[1], i, "big"))
+                    add("assign", sit, e, lambda g: g.l_assign(pair(g, e, sz)[1], i, NEW, "big"))
+                    add("opassign", sit, e,
+                        lambda g: g.l_opassign(pair(g, e, sz)[1], i, "+", "x" if e == "str" else 2, "big"))
             if sz > 1:
                 add("assign", "%s:element_of_itself" % sname, e, lambda g: g.l_assign(pair(g, e, sz)[1], 0, sz - 1, False, "elem"))
             for k in range(len(MAP_CB[e])):           # callback name and binding go into the type label:
